@@ -750,7 +750,7 @@ func TestVerifC17(t *testing.T) {
 	if shard == 0 {
 		nDirected = len(directed) * int(nCfg)
 	}
-	nRandom := kit.Scale(90, 400) * int(nCfg)
+	nRandom := kit.Scale(75, 400) * int(nCfg)
 	only := kit.OnlyCase()
 	var perCfg [nCfg]stats
 	var seqs [nCfg]int
@@ -774,7 +774,7 @@ func TestVerifC17(t *testing.T) {
 		}
 		d := devs[cfg]
 		d.use()
-		runCase := func(tracing bool, st *stats) *explorer {
+		runCase := func(tracing bool, st *stats, budget int) *explorer {
 			d.restore(d.initial)
 			d.vol = volatile{Up: true, Marked: true, Cur: [2]int{1, 1}}
 			d.tracing = tracing
@@ -785,10 +785,15 @@ func TestVerifC17(t *testing.T) {
 			x.run(0, budget, true)
 			return x
 		}
-		x := runCase(false, &perCfg[cfg])
+		// pre-pass without power losses: a violation on the plain event sequence
+		// gets the shortest witness
+		if x0 := runCase(false, &stats{}, 0); x0.violated {
+			runCase(true, &stats{}, 0)
+		}
+		x := runCase(false, &perCfg[cfg], budget)
 		if x.violated || x.nViol > 0 {
 			// deterministic re-run that records the witness and reports
-			if y := runCase(true, &stats{}); !y.violated && y.nViol == 0 {
+			if y := runCase(true, &stats{}, budget); !y.violated && y.nViol == 0 {
 				c.Inconclusive(fmt.Sprintf("case %d violated the property but did not on its traced re-run (harness not deterministic)", idx))
 			}
 		}
